@@ -59,6 +59,14 @@ def run(chk):
              for i in range(n)]
     sh, _ = chk.generate(inject_task, tasks)
     chk.validate('TraceBDD', 'TraceBDD.cfg', sh)
+    # file faults: a load that cannot open its file, then valid dump/load transfers
+    # (the C12 driver); "subsequent operations behave normally" = the transfer is accepted
+    from harness.drivers import xfer
+    chk.own_clauses = ('io.rejected', 'io.receiver_ref', 'io.receiver_canonical')
+    xt = [dict(shard=chk.shard('x_c17_%d' % i), tid0=17000000 + i * 100,
+               seed=chk.seed * 19 + i, ntraces=4 if q else 100, tmpdir=tmp) for i in range(8)]
+    xs, _ = chk.generate(xfer.c12_task, xt)
+    chk.validate('TraceXfer', 'TraceXfer.cfg', xs)
 
     def broken_after_raise(tr):
         for i, ev in enumerate(tr['events']):
